@@ -248,10 +248,10 @@ def check_data(acc, case, key):
 # -------------------------------------------------------------------------------------
 
 
-def configs(tier, top):
+def configs(tier, top, msls=(1, 2, 3)):
     out = []
     for n in range(2, top + 1):
-        for msl in (1, 2, 3):
+        for msl in msls:
             if n < 2 * msl:
                 continue
             for M in sorted({2 * msl, 2 * msl + 1, n, n + 3}):
@@ -263,7 +263,8 @@ def configs(tier, top):
 
 
 def onehot_cases(tier):
-    for (n, msl, M, g) in configs(tier, 9 if tier == "quick" else 11):
+    # min_segment_length 4 and 5 only here (cheap): admissibility rules that first differ at msl >= 4
+    for (n, msl, M, g) in configs(tier, 9 if tier == "quick" else 11) + configs(tier, 11 if tier == "quick" else 13, (4, 5)):
         ivs = impl_intervals(n, msl, M, g)
         if ivs is None:
             yield {"fam": "onehot", "n": n, "msl": msl, "M": M, "growth": g, "cells": []}
@@ -388,7 +389,7 @@ def shards(tier, seed):
 
 def bounds(tier, seed):
     return {
-        "onehot/poison configs": "n<=9 (quick) / 11, msl<=3, M in {2msl, 2msl+1, n, n+3}, growth in (1.5, 2)",
+        "onehot/poison configs": "n<=9 (quick) / 11, msl<=3 (and msl in (4,5) with n<=11/13), M in {2msl, 2msl+1, n, n+3}, growth in (1.5, 2)",
         "rowmax configs": "n<=7 / 8; all {0,1,2} tables for candidates with <=6/7 inner intervals, <=2 deviations otherwise",
         "greedy": "configs n<=8 / 10 with <=6/7 usable candidates; levels (0,1,2,3) x threshold; inner intervals {first,last,middle,shortest,longest}",
         "greedy-dev": "n in (8,9,10,12) / (8..14), M in {n, n//2}, msl<=3; all single deviations and all pairs on overlapping candidates",
